@@ -190,6 +190,49 @@ def gen_fst(r):
     return out, "fst-" + kind
 
 
+def gen_pi(r, urlA, urlB):
+    """children of the document before the document element for the `pi` request: up to three xml-stylesheet PIs made of
+    pseudo-attributes in random order / quotes / white space, other PIs, comments.
+    returns (tokens, expected 'A'|'B'|None per the xml-stylesheet Recommendation: first PI with an XSLT-capable type and an
+    href, class)"""
+    kids, expect, cls = [], None, "plain"
+    inapplicable_seen = False
+    for _ in range(r.range(1, 3)):
+        k = r.weighted([("X", 6), ("O", 1), ("M", 1)])
+        if k != "X":
+            kids.append(k)
+            continue
+        typ = r.weighted([("text/xsl", 5), ("text/xml", 1), ("application/xml", 1), ("text/css", 2), (None, 1)])
+        href = r.weighted([(urlA, 4), (urlB, 3), (None, 1)])
+        attrs = []
+        if typ is not None:
+            attrs.append(("type", typ))
+        if href is not None:
+            attrs.append(("href", href))
+        for n, v in r.shuffle([("title", "Main"), ("media", "screen"), ("charset", "UTF-8"), ("alternate", "no")])[: r.range(0, 2)]:
+            attrs.append((n, v))
+        attrs = r.shuffle(attrs)
+        nl = r.chance(1, 6)
+        parts = []
+        for n, v in attrs:
+            q = r.choice(['"', "'"])
+            eq = r.choice(["=", "=", " = ", "= "])
+            parts.append(n + eq + q + v + q)
+        seps = [r.choice([" ", "  ", "\t", " \t"]) if not (nl and i == 0) else r.choice(["\n", "\r\n ", " \n\t"]) for i in range(len(parts))]
+        data = "".join(p + (seps[i] if i + 1 < len(parts) else r.choice(["", " "])) for i, p in enumerate(parts))
+        if nl and len(parts) > 1:
+            cls = "newline"
+        kids.append("X:" + hx(data))
+        applicable = typ in ("text/xsl", "text/xml", "application/xml") and href is not None
+        if expect is None and applicable:
+            expect = "A" if href == urlA else "B"
+            if inapplicable_seen and cls == "plain":
+                cls = "inapplicable-first"
+        elif expect is None and attrs:
+            inapplicable_seen = True
+    return kids, expect, cls
+
+
 def gen_out_utf8(r):
     """print-writer history behind a real UTF-8 transcoder: well-formed UTF-16 text (pairs complete at every
     synchronisation point) cut into writes at arbitrary unit positions, small buffers.  returns (line, expected bytes)"""
@@ -363,6 +406,56 @@ OUTPUTS = [
 ]
 
 
+PI_VARIANTS = ["base", "href-first", "single-quotes", "spaces", "extras", "extras-href-first", "text-xml", "application-xml",
+               "two-xsl", "after-misc", "nl-sep", "css-first", "title-keyword"]
+
+
+def stylesheet_pi(variant, r, absdir):
+    """the xml-stylesheet processing instruction(s) of the document, lexically varied as the xml-stylesheet
+    Recommendation allows (pseudo-attributes in any order, either quote, any white space, several PIs).  The stylesheet
+    meant is always <absdir>/style.xsl.  returns the prolog text."""
+    href = "file://%s/style.xsl" % absdir
+    other = "file://%s/other.xsl" % absdir      # a different stylesheet that must NOT be chosen
+    q = lambda v, c='"': c + v + c
+    if variant == "base":
+        return '<?xml-stylesheet type="text/xsl" href="%s"?>\n' % href
+    if variant == "href-first":
+        return '<?xml-stylesheet href="%s" type="text/xsl"?>\n' % href
+    if variant == "single-quotes":
+        return "<?xml-stylesheet %s?>\n" % " ".join(r.shuffle(["type='text/xsl'", "href='%s'" % href]))
+    if variant == "spaces":
+        sep = r.choice(["  ", "\t", " \t "])
+        return "<?xml-stylesheet   " + sep.join(r.shuffle(["type = \"text/xsl\"", "href =\"%s\"" % href])) + "  ?>\n"
+    if variant in ("extras", "extras-href-first"):
+        extras = ['title="Main"', 'media="screen"', 'charset="UTF-8"', 'alternate="no"']
+        core = ['type="text/xsl"', 'href="%s"' % href]
+        if variant == "extras-href-first":
+            core.reverse()
+            parts = extras[:2] + [core[0]] + extras[2:3] + [core[1]] + extras[3:]
+        else:
+            parts = r.shuffle(extras[: r.range(1, 4)] + core)
+        return "<?xml-stylesheet %s?>\n" % " ".join(parts)
+    if variant == "text-xml":
+        return "<?xml-stylesheet %s?>\n" % " ".join(r.shuffle(['type="text/xml"', 'href="%s"' % href]))
+    if variant == "application-xml":
+        return "<?xml-stylesheet %s?>\n" % " ".join(r.shuffle(['type="application/xml"', 'href="%s"' % href]))
+    if variant == "two-xsl":        # several applicable PIs: the first one is used
+        return ('<?xml-stylesheet type="text/xsl" href="%s"?>\n<?xml-stylesheet href="%s" type="text/xsl"?>\n' % (href, other))
+    if variant == "after-misc":
+        return '<!-- a comment first -->\n<?other pi?>\n<?xml-stylesheet href="%s" type="text/xsl"?>\n' % href
+    if variant == "nl-sep":         # S in the pseudo-attribute grammar includes line ends
+        return '<?xml-stylesheet type="text/xsl"\n                 href="%s"?>\n' % href
+    if variant == "css-first":      # a PI for another kind of stylesheet comes first: not applicable, the next one is
+        return ('<?xml-stylesheet type="text/css" href="file://%s/look.css"?>\n<?xml-stylesheet type="text/xsl" href="%s"?>\n' % (absdir, href))
+    if variant == "title-keyword":  # a pseudo-attribute value that contains the words type / href
+        return '<?xml-stylesheet title="the type of href" type="text/xsl" href="%s"?>\n' % href
+    raise ValueError(variant)
+
+
+OTHER_XSL = ('<?xml version="1.0"?>\n<xsl:stylesheet version="1.0" xmlns:xsl="http://www.w3.org/1999/XSL/Transform">'
+             '<xsl:template match="/"><wrong-stylesheet/></xsl:template></xsl:stylesheet>\n')
+
+
 def gen_case(r, i, absdir):
     """returns dict(xml, xsl, mode, cls, probes).  absdir: directory the files will be written to (for the PI href)"""
     cls = r.weighted([("order", 12), ("cdata-entity", 3), ("strip", 2), ("error", 1), ("big", 2), ("dtd-id", 3)])
@@ -386,7 +479,10 @@ def gen_case(r, i, absdir):
                 '<n refs="in%s n9"/>' % ids[0])
         rootattrs += ' x="r1"'
     misc = r.choice(["", "<!--top-->\n", "<?toppi x?>\n"])
-    pi = '<?xml-stylesheet type="text/xsl" href="file://%s/style.xsl"?>\n' % absdir
+    pivar = r.weighted([("base", 4), ("href-first", 3), ("single-quotes", 2), ("spaces", 2), ("extras", 3), ("extras-href-first", 2),
+                        ("text-xml", 1), ("application-xml", 1), ("two-xsl", 2), ("after-misc", 2), ("nl-sep", 1), ("css-first", 1),
+                        ("title-keyword", 1)])
+    pi = stylesheet_pi(pivar, r, absdir)
     xml = prolog + doctype + misc + pi + "<r%s>%s</r>" % (rootattrs, body) + r.choice(["", "\n", "\n<!--after-->"])
     mode, outdecl = r.choice(OUTPUTS)
     nprobes = r.range(1, 4) if cls != "big" else r.range(3, 6)
@@ -430,5 +526,5 @@ def gen_case(r, i, absdir):
     xsl = ('<?xml version="1.0"?>\n<xsl:stylesheet version="1.0" xmlns:xsl="http://www.w3.org/1999/XSL/Transform" '
            'xmlns:p="urn:p" xmlns:q="urn:q" exclude-result-prefixes="p q">\n%s%s\n<xsl:template match="/">%s</xsl:template>\n</xsl:stylesheet>\n'
            % (outdecl, decls, root))
-    return {"xml": xml, "xsl": xsl, "mode": mode, "cls": cls, "probes": [p[0] for p in probes] + (["params"] if params else []), "nodom": cls == "cdata-entity", "params": params, "notree": notree,
+    return {"xml": xml, "xsl": xsl, "mode": mode, "cls": cls, "probes": [p[0] for p in probes] + (["params"] if params else []), "nodom": cls == "cdata-entity", "params": params, "notree": notree, "pi": pivar, "other_xsl": OTHER_XSL,
             "out": (outdecl.split(" ", 1)[1].rstrip("/>").replace(" ", ",").replace('"', "") if outdecl else "-")}
